@@ -66,21 +66,40 @@ Theorem C07_check_string_exact : forall sem y,
 Proof. exact check_string_exact. Qed.
 Print Assumptions C07_check_string_exact.
 
-(* matrix values (checkRawYAMLString), after repo_patches/pos/02 *)
-Theorem C07_matrix_diag_col : forall sem y,
-  sem_consistent sem -> pos_plain (ys_val y) = true ->
+(* matrix values (checkRawYAMLString).  Full statement (every scalar, quoted or
+   not): NOT true of the code — the quoted flag is not passed at this call
+   site (finding #7a; its repair needs a new struct field, which breaks an
+   unkeyed literal in the project's tests, so it is recorded, not applied).
+   Proved: exact for plain (unquoted) values; column = col + o in general;
+   refuted for quoted values by a witness; exact for every scalar with the
+   repair. *)
+Theorem C07_matrix_diag_col_partial : forall sem y,
+  sem_consistent sem -> pos_plain (ys_val y) = true -> ys_quoted y = false ->
   exists ds, check_raw_yaml_string sem y = map snd ds /\
              expr_diags_exact (ys_line y) (ys_col y) (ys_quoted y) ds.
-Proof. exact check_raw_yaml_string_exact. Qed.
-Print Assumptions C07_matrix_diag_col.
+Proof. exact check_raw_yaml_string_exact_partial. Qed.
+Print Assumptions C07_matrix_diag_col_partial.
 
-(* ... and the defect of the old call site (quoted = false passed) *)
-Theorem C07_matrix_diag_col_old_refuted :
-  exists sem y o, sem_consistent sem /\ pos_plain (ys_val y) = true /\
-    check_raw_yaml_string_old sem y = [(ys_line y, qcol (ys_col y) (ys_quoted y) + o - 1)] /\
-    check_raw_yaml_string sem y = [(ys_line y, qcol (ys_col y) (ys_quoted y) + o)].
-Proof. exact check_raw_yaml_string_old_refuted. Qed.
-Print Assumptions C07_matrix_diag_col_old_refuted.
+Theorem C07_matrix_diag_col_unquoted_formula : forall sem y,
+  sem_consistent sem -> pos_plain (ys_val y) = true ->
+  exists ds, check_raw_yaml_string sem y = map snd ds /\
+             expr_diags_exact (ys_line y) (ys_col y) false ds.
+Proof. exact check_raw_yaml_string_cols. Qed.
+Print Assumptions C07_matrix_diag_col_unquoted_formula.
+
+Theorem C07_matrix_diag_col_quoted_refuted :
+  exists sem y o, sem_consistent sem /\ pos_plain (ys_val y) = true /\ ys_quoted y = true /\
+    check_raw_yaml_string sem y = [(ys_line y, qcol (ys_col y) (ys_quoted y) + o - 1)] /\
+    check_raw_yaml_string_repaired sem y = [(ys_line y, qcol (ys_col y) (ys_quoted y) + o)].
+Proof. exact check_raw_yaml_string_quoted_refuted. Qed.
+Print Assumptions C07_matrix_diag_col_quoted_refuted.
+
+Theorem C07_matrix_diag_col_repaired : forall sem y,
+  sem_consistent sem -> pos_plain (ys_val y) = true ->
+  exists ds, check_raw_yaml_string_repaired sem y = map snd ds /\
+             expr_diags_exact (ys_line y) (ys_col y) (ys_quoted y) ds.
+Proof. exact check_raw_yaml_string_repaired_exact. Qed.
+Print Assumptions C07_matrix_diag_col_repaired.
 
 (* if: without ${{ }} (checkIfCondition), after repo_patches/pos/01 *)
 Theorem C07_if_diag_col : forall sem y,
